@@ -5,6 +5,10 @@ HOME = os.path.dirname(os.path.dirname(os.path.abspath(__file__)))
 sys.path.insert(0, HOME)
 
 CHECKS = {
+ "C19": dict(engine="E6 twin-process differential", technique="offline checker over recorded event logs of twin processes: every dump point of every scenario is resumed with the repository's own resume.main() in a fresh process and its commit/sample log compared bit for bit (float.hex) with the uninterrupted run; class-level recording wrappers only, so dumps contain nothing of the harness",
+    level="fault_enumeration", ref="DESIGN.md §3 C19",
+    text="Each dumping event of a run is a crash point and ALL of them (up to 8 per scenario in the quick tier, 40 in the thorough tier) are enumerated: shipped configurations with heap and list scheduler, C-backed potentials, cell systems, liftings, mode switching, exact ties between sampling and dumping times, and generated many-particle cell systems; plus the run with dumps vs the same run without the dumping tagger, plus one cycle from a site-packages layout.",
+    note="All processes run with ASLR off (setarch -R) and PYTHONHASHSEED=0. Event time in the log = the scheduler's own last-returned time. Ties with the end of run / end of chain are not generated (their order legitimately depends on which other events exist)."),
  "C04": dict(engine="E4 sweep + E3 probe bus", technique="runtime monitor comparing the two real C potentials at identical arguments with directed maximisation of true/bound (hill climbing to the critical set), passive decision monitor on every thinned event of real runs (recorded uniform draw, warning call, velocities; rates recomputed at event positions), scripted-uniform unit driver",
     level="exploration", ref="DESIGN.md §3 C04",
     text="1e5..1e6 separations (uniform, face/edge/corner/origin-stratified) plus coordinate hill climbing reach the critical set (max ratio 0.999902 at the centre of a transverse edge, required >= 0.9995) for the constructors' default prefactors, the shipped 332/531.2 pair, and pickled / deep-copied clones; in runs of all shipped Coulomb configurations every thinned event is checked: upper limit of the draw = bounding rate, confirmed iff u < real, unconfirmed events change no velocity, bound >= real for the scaled 1/r bound, both rates recomputed by the monitor; the two-leaf-unit handler is driven with u on a grid around the ratio.",
